@@ -78,3 +78,104 @@ package aggregate
 //@   loop#1 invariant forall j in 0 .. i : dPts[j].StartTime === old(s.start) && dPts[j].Time === t
 //@   loop#1 invariant forall j in 0 .. i : exists k attribute.Distinct : old(has(s.values, k)) && dPts[j].Value === old(s.values[k].n) && dPts[j].Attributes == old(s.values[k].attrs)
 //@   loop#1 invariant forall k attribute.Distinct : has(s.values, k) == old(has(s.values, k)) && (has(s.values, k) ==> s.values[k] === old(s.values[k]))
+
+// ======================================================================== C07 explicit-bucket histograms
+//@ spec sortedF(a []float64) bool = forall i in 0 .. len(a) : forall j in 0 .. i : a[j] <= a[i]
+
+// bin: exactly one bucket count and the total count grow by one; min/max follow the recorded value
+//@ func (b *buckets[N]) bin(idx int, value N)
+//@   prop C07
+//@   instances int64; float64
+//@   overflow assumed
+//@   requires b != nil && 0 <= idx && idx < len(b.counts)
+//@   modifies b.count, b.min, b.max, elems(b.counts)
+//@   ensures b.counts[idx] == old(b.counts[idx]) + 1 && (forall j in 0 .. len(b.counts) : j != idx ==> b.counts[j] == old(b.counts[j]))
+//@   ensures b.count == old(b.count) + 1
+//@   ensures b.min === ite(value < old(b.min), value, old(b.min))
+//@   ensures b.max === ite(value < old(b.min), old(b.max), ite(value > old(b.max), value, old(b.max)))
+
+//@ func (b *buckets[N]) sum(value N)
+//@   prop C07
+//@   instances int64; float64
+//@   overflow assumed
+//@   requires b != nil
+//@   modifies b.total
+//@   ensures b.total === old(b.total) + value
+
+//@ func newBuckets(attrs attribute.Set, n int) (b *buckets[N])
+//@   prop C07
+//@   instances int64; float64
+//@   requires n >= 0
+//@   ensures b != nil && fresh(b) && len(b.counts) == n && fresh(b.counts) && b.count == 0 && b.attrs == attrs && (forall j in 0 .. n : b.counts[j] == 0)
+
+//@ guarded_by histValues.valuesMu: values
+
+// measure: the value lands in the bucket (lower, upper] that contains it; one bucket set per attribute identity with
+// exactly len(bounds)+1 counts; a new bucket set starts with min = max = the first value
+//@ func (s *histValues[N]) measure(ctx context.Context, value N, fltrAttr attribute.Set, droppedAttr []attribute.KeyValue)
+//@   prop C07 C12
+//@   instances int64; float64
+//@   acquires s.valuesMu
+//@   overflow assumed
+//@   unchecked frame bucket objects reached through the map are written; only the bucket chosen by the limiter is touched (site assertions)
+//@   requires s != nil && s.values != nil && s.newRes != nil && sortedF(s.bounds) && (forall i in 0 .. len(s.bounds) : !isNaN(s.bounds[i]))
+//@   requires (forall a attribute.Set : s.newRes(a) != nil) && (forall k attribute.Distinct : has(s.values, k) ==> s.values[k] != nil && s.values[k].res != nil && len(s.values[k].counts) == len(s.bounds) + 1)
+//@   assert@call buckets.bin#1 : $arg1 == idx && 0 <= idx && idx <= len(s.bounds) && $arg2 === value
+//@   @float64 assert@call buckets.bin#1 : isNaN(value) || ((idx == 0 || s.bounds[idx-1] < value) && (idx == len(s.bounds) || value <= s.bounds[idx]))
+//@   @float64 assert@call buckets.bin#1 : isNaN(value) ==> idx == len(s.bounds)
+//@   assert@call buckets.bin#1 : has(s.values, attr.Equivalent()) && s.values[attr.Equivalent()] == $arg0 && len($arg0.counts) == len(s.bounds) + 1
+//@   @int64 assert@call buckets.bin#1 : (idx == 0 || s.bounds[idx-1] < float64(value)) && (idx == len(s.bounds) || float64(value) <= s.bounds[idx])
+
+// known finding: for int64 instruments the placement above is by the float64 ROUNDING of the value, not by the value: the
+// statement "a bound below float64(v) is below v" is false for |v| > 2^53 (expected to be refuted while the finding exists)
+//@ props C07
+//@ canary KF-C07-int64-bucket-rounding int64_bucket_is_exact bv: forall v int64 : forall b float64 : float64(v) <= b ==> exactLE(v, b)
+
+// ======================================================================== C07 base-2 exponential histograms
+// scaleChange: the number of halvings after which bin and the current window fit into maxSize buckets (or more than 30)
+//@ func (p *expoHistogramDataPoint[N]) scaleChange(bin int32, startBin int32, length int) (r int32)
+//@   prop C07
+//@   instances int64; float64
+//@   mode bv
+//@   requires p != nil && length >= 0 && length <= 1073741824
+//@   ensures length == 0 ==> r == 0
+//@   ensures r >= 0 && r <= 31
+//@   ensures length != 0 && startBin < bin ==> r > 30 || (int(bin) >> int(r)) - (int(startBin) >> int(r)) < p.maxSize
+//@   ensures length != 0 && startBin >= bin ==> r > 30 || ((int(startBin) + length - 1) >> int(r)) - (int(bin) >> int(r)) < p.maxSize
+//@   loop#1 invariant count >= 0 && count <= 30
+//@   loop#1 invariant startBin < bin ==> low == (int(startBin) >> int(count)) && high == (int(bin) >> int(count))
+//@   loop#1 invariant startBin >= bin ==> low == (int(bin) >> int(count)) && high == ((int(startBin) + length - 1) >> int(count))
+//@   loop#1 decreases 31 - int(count)
+
+// getBin for scale <= 0: with v = frac * 2^exp, 1/2 <= frac < 1 (math.Frexp) the unique e with 2^e < v <= 2^(e+1) is
+// exp-2 when frac == 1/2 (v is an exact power of two) and exp-1 otherwise; the index i at scale -k satisfies
+// i*2^k <= e and e+1 <= (i+1)*2^k, i.e. (2^e, 2^(e+1)] lies inside bucket i = (base^i, base^(i+1)], base = 2^(2^k).
+//@ func (p *expoHistogramDataPoint[N]) getBin(v float64) (r int32)
+//@   prop C07
+//@   instances int64; float64
+//@   mode bv
+//@   requires p != nil && p.scale >= -10 && p.scale <= 20
+//@   ensures p.scale <= 0 && p.scale >= -10 && v > 0 && !isInf(v) && !isNaN(v) ==> (int64(r) << int64(-p.scale)) <= int64(ite(fst(math.Frexp(v)) == 0.5, snd(math.Frexp(v)) - 2, snd(math.Frexp(v)) - 1)) && int64(ite(fst(math.Frexp(v)) == 0.5, snd(math.Frexp(v)) - 2, snd(math.Frexp(v)) - 1)) + 1 <= ((int64(r) + 1) << int64(-p.scale))
+
+//@ func (b *expoBuckets) record(bin int32)
+//@   prop -
+//@   trusted "window arithmetic of the bucket slice: not yet under contract (listed as not decided)"
+//@   requires b != nil
+//@   modifies b, elemscap(b.counts)
+//@ func (b *expoBuckets) downscale(delta int32)
+//@   prop -
+//@   trusted "in-place merge of bucket counts: not yet under contract (listed as not decided)"
+//@   requires b != nil
+//@   modifies b, elemscap(b.counts)
+
+// record: the scale only ever decreases and never goes below -10; a measurement that cannot be represented (scale
+// underflow) is dropped WITHOUT being counted, so count stays equal to zero count + bucket counts
+//@ func (p *expoHistogramDataPoint[N]) record(v N)
+//@   prop C07
+//@   instances int64; float64
+//@   overflow assumed
+//@   unchecked no-panic,frame the positive/negative bucket set is selected through a pointer into the data point (an interior pointer merged at a join) and written through trusted contracts
+//@   requires p != nil && -10 <= p.scale && p.scale <= 20 && len(p.posBuckets.counts) <= 1073741824 && len(p.negBuckets.counts) <= 1073741824
+//@   ensures p.scale <= old(p.scale) && p.scale >= -10
+//@   ensures p.count == old(p.count) || (p.count == old(p.count) + 1 && (p.zeroCount == old(p.zeroCount) + 1 || p.zeroCount == old(p.zeroCount)))
+//@   assert@call Handle#1 : p.count == old(p.count) && p.zeroCount == old(p.zeroCount) && p.sum === old(p.sum) && p.min === old(p.min) && p.max === old(p.max) && p.scale == old(p.scale)
